@@ -377,7 +377,8 @@ FS_RULE = ('random op tapes (31 op codes over a pool of 3 sets + 2 sets of a sib
 
 def check_C03(tier, seed, t0):
     cases, maxlen = budget(tier, (30000, 60), (400000, 80))
-    parts = [interp_part('C03', 'flatset_histories', fs_jobs([n for n, _ in C.FS_CONFIGS], cases, maxlen), seed, FS_RULE, True)]
+    parts = [interp_part('C03', 'flatset_histories', fs_jobs([n for n, _ in C.FS_CONFIGS], cases, maxlen) + fs_jobs(C.FS_MULTISTD, cases, maxlen, stds=('11', '14', '20')),
+                         seed, FS_RULE, True)]
     parts += fuzz_parts('C03', tier, seed, ('fs',), True)
     return finish('C03', tier, seed, 'exploration', parts, FS_RULE, ASSUME_COMMON, t0)
 
